@@ -22,9 +22,31 @@ type solverSpec struct {
 func solverList() []solverSpec {
 	return []solverSpec{
 		{"z3-5.1.0", []string{"z3-new", "-smt2", "-in"}},
+		{"z3-5.1.0-ematch", []string{"z3-new", "-smt2", "-in", "smt.mbqi=false", "smt.auto_config=false"}},
 		{"z3-4.8.12", []string{"z3", "-smt2", "-in"}},
 		{"cvc5-1.0", []string{"cvc5", "--lang=smt2", "--produce-models", "-"}},
 	}
+}
+
+// smtGround: the query with triggered quantifiers instantiated by the engine and
+// every quantified assumption dropped ("" when the query has no triggered quantifier).
+func (fv *FuncVer) smtGround(q *Query) string {
+	insts := instantiate(q.Assumptions, q.Goal, 3, 400)
+	if len(insts) == 0 {
+		return ""
+	}
+	var as []*Term
+	for _, a := range q.Assumptions {
+		if !hasQuant(a) {
+			as = append(as, a)
+		}
+	}
+	for _, a := range insts {
+		if !hasQuant(a) {
+			as = append(as, a)
+		}
+	}
+	return fv.smtText(&Query{Assumptions: as, Goal: q.Goal}, false)
 }
 
 func (fv *FuncVer) smtText(q *Query, wantModel bool) string {
@@ -106,6 +128,52 @@ func runSolver(ctx context.Context, sp solverSpec, text string, timeout time.Dur
 
 // solve decides one query. tier: quick = primary solver first, race on unknown;
 // thorough = all solvers, disagreement is an engine error.
+// solve2: like solve, with an additional ground variant of the same query.
+// `unsat` of either variant discharges the query; `sat` is only believed for the full text.
+func solve2(text, ground string, timeout time.Duration, thorough bool) solveResult {
+	if ground == "" {
+		return solve(text, timeout, thorough)
+	}
+	type one struct {
+		name, r, model string
+		ms             int
+		full           bool
+	}
+	sps := solverList()
+	ctx, cancel := context.WithCancel(context.Background())
+	defer cancel()
+	ch := make(chan one, 8)
+	n := 0
+	launch := func(sp solverSpec, t string, full bool, tag string) {
+		n++
+		go func() {
+			r, m, ms := runSolver(ctx, sp, t, timeout)
+			ch <- one{sp.name + tag, r, m, ms, full}
+		}()
+	}
+	launch(sps[0], text, true, "")
+	launch(sps[0], ground, false, "+inst")
+	launch(sps[len(sps)-1], ground, false, "+inst")
+	if thorough {
+		launch(sps[2], text, true, "")
+		launch(sps[len(sps)-1], text, true, "")
+	}
+	res := solveResult{result: "unknown", all: map[string]string{}}
+	for i := 0; i < n; i++ {
+		o := <-ch
+		res.all[o.name] = o.r
+		if o.r == "unsat" || (o.r == "sat" && o.full) {
+			res.result, res.solver, res.ms, res.model = o.r, o.name, o.ms, o.model
+			return res
+		}
+		if res.result == "unknown" && o.full && o.r == "timeout" {
+			res.result = "timeout"
+			res.ms = o.ms
+		}
+	}
+	return res
+}
+
 func solve(text string, timeout time.Duration, thorough bool) solveResult {
 	h := sha256.Sum256([]byte(text))
 	key := hex.EncodeToString(h[:]) + fmt.Sprint(thorough)
@@ -235,8 +303,32 @@ func fileSafe(s string) string {
 // feasible asks whether cond can hold under the current path condition
 // (used only inside unrolled loops so that they terminate).
 func (fv *FuncVer) feasible(st *State, cond *Term) bool {
-	q := &Query{Assumptions: append(append([]*Term(nil), st.pc...), cond), Goal: False}
+	// quantified assumptions are dropped: fewer assumptions can only make more
+	// branches feasible, so pruning on `unsat` stays sound
+	var as []*Term
+	for _, a := range st.pc {
+		if !hasQuant(a) {
+			as = append(as, a)
+		}
+	}
+	q := &Query{Assumptions: append(as, cond), Goal: False}
 	text := fv.smtText(q, false)
-	r := solve(text, 5*time.Second, false)
-	return r.result != "unsat"
+	r, _, _ := runSolver(context.Background(), solverList()[0], text, 3*time.Second)
+	return r != "unsat"
+}
+
+
+func hasQuant(t *Term) bool {
+	if t.Q != nil {
+		return true
+	}
+	for _, a := range t.Args {
+		if hasQuant(a) {
+			return true
+		}
+	}
+	if t.Sym != nil && t.Sym.Def != nil {
+		return hasQuant(t.Sym.Def)
+	}
+	return false
 }
